@@ -102,7 +102,7 @@ def gen(rng, tier, mult=1):
         content = bytes(rng.randrange(256) for _ in range(n))
         yield {"kind": "blocks", "netascii": rng.random() < 0.8, "bs": rng.choice(T.BLOCK_SIZES), "content": content.hex(),
                "caps": T.gen_caps(rng, n)}
-    for i in range((150 if tier == "quick" else 2500) * mult):
+    for i in range((600 if tier == "quick" else 8000) * mult):
         yield T.gen_transfer_case(rng, netascii=True, script_style=["clean", "faulty", "clean", "edge"][i % 4],
                                   simple_cfg=True, bs_choices=[8, 9, 16, 512], handler_kind="stream",
                                   opt_style=["none", "tsize", "mixed", "blksize"][i % 4])
